@@ -4,6 +4,7 @@ import ExprModel.Drv.Determinism
 import ExprModel.Drv.Lex
 import ExprModel.Drv.Opt
 import ExprModel.Drv.Parse
+import ExprModel.Drv.Pipeline
 import ExprModel.Drv.Source
 import ExprModel.Drv.Spec
 import ExprModel.Drv.SrcDefects
@@ -27,7 +28,8 @@ def handlers : List (String × (List Sexp → Sexp)) :=
   Drv.typesHandlers ++
   Drv.srcDefectsHandlers ++
   Drv.determinismHandlers ++
-  Drv.optHandlers
+  Drv.optHandlers ++
+  Drv.pipelineHandlers
 
 def dispatch (req : Sexp) : Sexp :=
   match req with
